@@ -181,6 +181,20 @@ class World:
             eng.finals = finals
             eng.entry_frame = fr.id
             return eng
+        if name.startswith("sock:"):
+            path = name[5:]
+            eng = self.engine()
+
+            def setup(e, st, fr):
+                if fr.body.arg_count >= 2:
+                    v = e.read(st, ("L", fr.id, 2), (), fr.body.local_ty(2))
+                    if v[0] == "i":
+                        st.ctx.add(lin.le(v[1], lin.const(65464)))
+
+            fr, finals = eng.run(path, setup=setup, region="fn:" + path)
+            eng.finals = finals
+            eng.entry_frame = fr.id
+            return eng
         if name.startswith("window:"):
             meth = name[7:]
             path = WINDOW + "::" + meth
